@@ -105,7 +105,10 @@ def member_schema(schema, key):
     props = schema.get("properties", {})
     patterns = [p for p in schema.get("patternProperties", {}) if re.search(p, key)]
     if key in props and patterns:
-        return "declared+pattern", None
+        # both apply to the member (Draft 6); the DECLARED property is the one that builds it - that is what
+        # makes it "readable under its Python name" as the thing its own schema describes (a float for a
+        # number, a model for an object class)
+        return "declared+pattern", props[key]
     if key not in props and key in schema.get("required", []):
         # the parser may declare a synthetic accept-anything property for it:
         # which element builds the member is then not determined by the raw schema
@@ -283,7 +286,7 @@ class Walk:
             sub_schema = None
             if plain:
                 kind, sub_schema = member_schema(schema, key)
-                if kind in ("pattern", "additional"):
+                if kind in ("pattern", "additional", "declared+pattern"):
                     ctx.count("pos." + kind)
             before = len(self.problems)
             self.walk(sub_r, sub_v, sub_schema, f"{path}.{key}", depth + 1)
